@@ -2,6 +2,7 @@ import TexcraftModel.Util.Proto
 import TexcraftModel.Model.C10
 import TexcraftModel.Model.C10Ser
 import TexcraftModel.Model.C10Cst
+import TexcraftModel.Model.C10Num
 
 /-! Driver for C10 (TFM reader front end). Requests (all numbers decimal):
 
@@ -13,6 +14,8 @@ import TexcraftModel.Model.C10Cst
 * `ser <headerExtra> <hasChars> <bc> <ec> <nw> <nh> <nd> <ni> <steps> <added> <nk> <ne> <np>`
                                                              → `serializeSizes` of the shape and the first
                                                                failing clause of `ShapeOK` (0 = none)
+* `num fix|u32|u8 <data code points…>`                      → the number reader's value, span, warnings
+* `cstrt <text code points…>`                               → `warnings=<n> same=<0/1>`: does `renderAll (parse text)` give the text back
 * `cst <k> <k non-ASCII alphanumeric code points> <text code points…>`
                                                              → `Cst.cstModel`: tree and warnings as integers
 * `vf <nw> <nh> <nd> <ni> <n> <n × (w h d i)>`              → clamped indices, then `1`/`0`
@@ -114,6 +117,43 @@ def handleCst (ws : List Nat) : String :=
       showNats ((tree.length :: encNodes tree) ++ (warnings.length :: (warnings.map encWarning).flatten))
   | [] => "bad-request"
 
+/-! ### Number readers -/
+
+def encKind : Num.Kind → List Nat
+  | .invalidPrefixForInteger => [0, 0]
+  | .invalidOctalDigit => [1, 0]
+  | .integerIsTooBig r => [2, r]
+  | .invalidPrefixForDecimalNumber => [3, 0]
+  | .decimalNumberIsTooBig => [4, 0]
+  | .smallIntegerIsTooBig r => [5, r]
+  | .emptyCharacterValue => [6, 0]
+  | .invalidFaceCode => [7, 0]
+  | .invalidPrefixForSmallInteger => [8, 0]
+  | .junkAfterPropertyValue => [9, 0]
+
+def showRes (r : Num.Res) : String :=
+  let r := Num.withJunk r
+  let ws := (r.warns.map fun w => encKind w.kind ++ [w.start, w.stop, w.offset]).flatten
+  s!"ok {r.value} {r.start} {r.stop} {r.warns.length} {showNats ws}".trimAsciiEnd.toString
+
+def handleNum (which : String) (cps : List Nat) : String :=
+  let i : Num.In := ⟨cps.map Char.ofNat, 0⟩
+  match which with
+  | "fix" => match Num.parseFix i with | .ok r => showRes r | .panic => "panic"
+  | "u32" => showRes (Num.parseU32 i)
+  | "u8" => showRes (Num.parseU8 i)
+  | _ => "bad-request"
+
+/-- The round-trip law evaluated on the model: the text parses without warnings and the
+canonical rendering of the tree is the (normalised) text again. -/
+def handleCstRt (cps : List Nat) : String :=
+  let text := cps.map Char.ofNat
+  match Cst.cstModel asciiAlnum text with
+  | .outOfFuel => "outoffuel"
+  | .ok tree warnings =>
+    let back := Cst.renderAll tree
+    s!"warnings={warnings.length} same={b2i (back == Cst.normalize text)}"
+
 def handle (line : String) : String :=
   match words line with
   | "raw" :: len :: bs =>
@@ -150,6 +190,14 @@ def handle (line : String) : String :=
       | .panic (.sectionCast k) => s!"panic section{k} viol={v}"
       | .panic .lfOverflow => s!"panic lfoverflow viol={v}"
     | _ => "bad-request"
+  | "num" :: which :: ws =>
+    match nats? ws with
+    | some ns => handleNum which ns
+    | none => "bad-request"
+  | "cstrt" :: ws =>
+    match nats? ws with
+    | some ns => handleCstRt ns
+    | none => "bad-request"
   | "cst" :: ws =>
     match nats? ws with
     | some ns => handleCst ns
